@@ -1546,6 +1546,8 @@ class Interp:
             if k is None:
                 self.emit("td-dynamic-read", n, (td, pos))
                 return mk("cellany", td.name, self.sym(pos[0]) if pos else const(None))
+            if len(pos) == 1 and "default" not in kw:
+                return self.td_read(td, k, n)          # td.get(key) without a default is td[key]
             if k in td.cells or td.closed or (td.parent is not None):
                 if k in td.cells or td.parent is not None:
                     return self.td_read(td, k, n)
